@@ -566,12 +566,18 @@ func (a *Act) evalModItems(items []ModItem, env *Env) []modEntry {
 				out = append(out, modEntry{Comp: cc, Ref: sArr(v.Term), Src: it.Src})
 			}
 		case it.Star, it.Deref:
-			v := env.eval(it.Expr)
-			if v.Loc == nil && v.Sort != SortInt {
-				env.fail("modifies %s: not a pointer", it.Src)
-				continue
+			var l *Loc
+			if it.Expr.Kind == SSel {
+				l = env.evalLoc(it.Expr) // an embedded struct: s.Stats.*
 			}
-			l := a.objLoc(v)
+			if l == nil {
+				v := env.eval(it.Expr)
+				if v.Loc == nil && v.Sort != SortInt {
+					env.fail("modifies %s: not a pointer", it.Src)
+					continue
+				}
+				l = a.objLoc(v)
+			}
 			for _, cc := range a.leafComps(l) {
 				out = append(out, modEntry{Comp: cc, Ref: l.Base, Src: it.Src})
 			}
